@@ -13,9 +13,11 @@ C={
  "C09":(MC,"enum+proto+solo","exhaustive enumeration of the leader function over committees x insertion orders x rounds; explicit-state search for votes/equivocation","Leader: every committee of size <=5/6 drawn from 7 keys, every insertion order, boundary rounds. Votes only for the round leader's correctly signed block and no two own proposals per round: monitors on every local transition explored by proto/solo.","5.4, 6 (C09)"),
  "C10":(MC,"proto+solo","explicit-state search on the real node (solo adversarial BFS, proto global BFS)","Round monotone, advanced only with a valid QC/TC of the previous round in hand, timeouts carry a QC at least as high as any voted/sent: monitors on every local transition explored.","5.1, 6 (C10)"),
  "C19":(MC,"seq-aggregator+proto+solo","explicit-state search to a fixpoint on the real Aggregator against a reference model; reference aggregator monitors inside proto/solo","Aggregator: all operation sequences over votes/timeouts/cleanup on equal and unequal stake committees (closed state space). Node level: certificates sent are valid; certificates assembled exactly when the reference aggregator crosses the quorum, with exactly the contributing signers, once.","5.2, 6 (C19)"),
+ "C08":(MC,"seq-full","bounded exhaustive event sequences (proposals with payloads in any order, batch deliveries, timer) on one real full node (mempool + consensus + shared store) with the store inspected at every vote/commit","Every sequence of 5/6 events over 4 proposals (r1..r3, r5), 2 batches and one timer expiry, for 5/31 payload assignments: direct, sync-resumed and payload-resumed processing paths.","5.2, 6 (C08)"),
  "C11":(MC,"seq-mempool","bounded exhaustive transaction sequences (sizes x arrival gaps) on the real mempool stack in virtual time, both builds (default and benchmark feature), against a reference batcher","Every sequence of up to 3/4 transactions over sizes {0,1,b-1,b,b+1,2b} and waits {0,d-1,d,d+1} ms for 1/3 (batch_size, max_batch_delay) configurations, in the default and the benchmark-feature build.","5.2, 6 (C11)"),
  "C12":(MC,"seq-mempool","exhaustive acknowledgement orders on the real QuorumWaiter and exhaustive Ack/Cut event sequences on the real mempool stack with the harness as the peers","QuorumWaiter: every acknowledgement order x every set of never-answering peers x equal/unequal stakes x each own node x 1-2 batches. Stack: every sequence of 5/6 Ack/Cut peer events; digest handed to consensus / batch stored only when really-acknowledging peers hold a quorum with the node.","5.2, 6 (C12)"),
  "C14":(MC,"seq-sender","bounded exhaustive (stateless, deviation-bounded) exploration of the real ReliableSender/Connection over the in-memory transport with the harness as peer","Every interleaving of hand-overs (3 messages), peer reads, peer answers, handle drops, connection cuts, refused connects and back-off expiries up to depth 10/13 with at most 2/3 faults, each followed by stabilisation; oracle = reference reliable channel (delivery, first-delivery order, ACK pairing, no retransmission after cancel).","5.2, 6 (C14)"),
+ "C15":(EX,"hostile","exhaustive single-edit mutation of every valid wire/key encoding against all decoders under catch_unwind + delivery of every decodable mutant and a catalogue of absurd / cross-component messages to a live real full node with functional probes after every chunk (bisected to one message); both builds","Decoder totality within one edit (and all strings of length <= 2); node-level: no panic anywhere in the node and five services still functional after every hostile input explored.","5.5, 6 (C15)"),
  "C16":(MC,"seq-store","bounded exhaustive operation sequences on the real Store (RocksDB) against a reference store, waiters parked and cancelled at every position","Every sequence up to length 5/6 over write/read/notify_read on two keys from fresh cloned handles, cancellation of the oldest/newest pending notify_read, 1..6 waiters per key, and one reopen anywhere (length 3/4); every waiter is checked after every operation.","5.2, 6 (C16)"),
  "C17":(EX,"enum","exhaustive enumeration of total stakes through the real Committee types","Every total stake 1..2^31-1 (thorough; quick: 2^20 + windows around powers of two) in four shapes, every composition of n<=12 into <=5 parts incl. zero-stake members, both crates.","5.4, 6 (C17)"),
  "C18":(EX,"enum","exhaustive enumeration of bit flips / batch corruptions / encoder round trips on seeded keys","Every bit of signature, digest and key flipped; batches 0..4 with every position x bit and every corrupted subset vs conjunction; base64/serde/bincode/JSON-file round trips.","5.4, 6 (C18)"),
@@ -43,8 +45,10 @@ m={"version":1,
   {"name":"solo","path":"harness/src/proto/solo.rs","serves_properties":["C02","C03","C05","C09","C10","C19"],"kind_free_text":"depth-bounded BFS over one real node's local states against an adversarial environment"},
   {"name":"chain","path":"harness/src/proto/chain.rs","serves_properties":["C02","C05"],"kind_free_text":"all chain shapes x learning orders on one real node"},
   {"name":"seq-aggregator","path":"harness/src/seq_aggregator.rs","serves_properties":["C19"],"kind_free_text":"fixpoint search on the real Aggregator vs reference model"},
+  {"name":"seq-full","path":"harness/src/seq_full.rs","serves_properties":["C08"],"kind_free_text":"bounded exhaustive event sequences on one real full node"},
   {"name":"seq-mempool","path":"harness/src/seq_mempool.rs","serves_properties":["C11","C12"],"kind_free_text":"bounded exhaustive event sequences on the real mempool stack vs reference batcher / quorum rule"},
   {"name":"seq-sender","path":"harness/src/seq_sender.rs","serves_properties":["C14"],"kind_free_text":"stateless bounded exploration of the real reliable sender vs reference channel"},
+  {"name":"hostile","path":"harness/src/hostile.rs","serves_properties":["C15"],"kind_free_text":"exhaustive single-edit mutation sweep + node-level hostile delivery with functional probes"},
   {"name":"seq-store","path":"harness/src/seq_store.rs","serves_properties":["C16"],"kind_free_text":"bounded exhaustive operation sequences on the real store vs reference store"},
   {"name":"enum","path":"harness/src/enumchecks.rs","serves_properties":["C09","C17","C18","C20"],"kind_free_text":"exhaustive enumeration of closed value spaces"},
  ],
